@@ -53,6 +53,7 @@ static void build(void) {
     add(tier, 2, "Y", "C", 0, 2, 1); P[tier][NP[tier] - 1].oddstack = 1; add(tier, 2, "P", "M", 0, 1, 1); P[tier][NP[tier] - 1].oddstack = 1;
     add(tier, 2, "B", "B", 0, 2, 1); P[tier][NP[tier] - 1].oddstack = 1;
     /* children on stacks of a size that is not a page multiple, created and joined repeatedly (the block is recycled) next to suspended probe threads */
+    add(tier, 2, "H", "Y", 0, 1, 1); add(tier, 2, "Hh", "YH", 0, 2, tier ? 2 : 1); add(tier, 2, "hH", "M", 0, 2, 1);
     add(tier, 2, "OOO", "Y", 0, 1, 1); add(tier, 2, "OO", "YO", 0, 2, tier ? 2 : 1); add(tier, 3, "OO", "M", "MO", 2, 1);
     /* K: a thread ends while holding a value under a key whose destructor yields (the final switch away happens after a
        suspension inside thread termination, possibly on another worker) */
@@ -88,6 +89,17 @@ static void sw_yield(void * a) { (void)a; myth_yield(); }
 static void sw_create_cf(void * a) { myth_thread_t t = myth_create(child_body, a); void * r; myth_join(t, &r); MV_CHECK(r == a, "child result wrong"); }
 static void sw_create_pf(void * a) { myth_thread_t t; h_spawn(V_EX_PARENT_FIRST, &t, child_body, a); void * r; myth_join(t, &r); MV_CHECK(r == a, "parent-first child result wrong"); }
 static void sw_create_odd(void * a) { myth_thread_t t; h_spawn(V_EX_STACK_ODD, &t, child_body, a); void * r; myth_join(t, &r); MV_CHECK(r == a, "child (20000-byte stack) result wrong"); }
+static void * hint_child_body(void * a) {
+  volatile unsigned long loc[32]; unsigned long pat = (unsigned long)a ^ 0x77;
+  h_check_hint();
+  for (int i = 0; i < 32; i++) loc[i] = pat + i;
+  myth_yield();
+  for (int i = 0; i < 32; i++) MV_CHECK(loc[i] == pat + i, "hinted child: stack word %d changed across a yield", i);
+  h_check_hint();                 /* frames and switches of the thread must not overlay its custom data */
+  return a;
+}
+static void sw_create_hint_pf(void * a) { myth_thread_t t; h_spawn(V_EX_HINT_PF, &t, hint_child_body, a); void * r; myth_join(t, &r); MV_CHECK(r == a, "parent-first child with custom data: result wrong"); }
+static void sw_create_hint(void * a) { myth_thread_t t; h_spawn(V_EX_HINT, &t, hint_child_body, a); void * r; myth_join(t, &r); MV_CHECK(r == a, "child with custom data: result wrong"); }
 static void sw_mutex(void * a) { (void)a; myth_mutex_lock(&mtx); myth_yield(); myth_mutex_unlock(&mtx); }
 static void sw_barrier(void * a) { (void)a; myth_barrier_wait(&bar); }
 static void sw_condwait(void * a) { (void)a; myth_mutex_lock(&cm); while (!cflag) myth_cond_wait(&cv, &cm); myth_mutex_unlock(&cm); }
@@ -118,7 +130,8 @@ static void do_op(int me, char op, int idx) {
   case 'B': fn = sw_barrier; kind = 4; break;        case 'W': fn = sw_condwait; kind = 5; break;
   case 'w': fn = sw_condsig; kind = 5; break;        case 'U': fn = sw_uwait; kind = 6; break;
   case 'u': fn = sw_usig; kind = 6; break;           case 'K': fn = sw_keyed_child; kind = 1; break;
-  case 'O': fn = sw_create_odd; kind = 1; break;
+  case 'O': fn = sw_create_odd; kind = 1; break;           case 'H': fn = sw_create_hint_pf; kind = 2; break;
+  case 'h': fn = sw_create_hint; kind = 1; break;
   default: fn = sw_join_unfinished; kind = 7; break;
   }
   int w0 = mv_worker();
